@@ -22,6 +22,7 @@ import (
 
 	"google.golang.org/protobuf/proto"
 	"google.golang.org/protobuf/reflect/protodesc"
+	"google.golang.org/protobuf/reflect/protoregistry"
 	"google.golang.org/protobuf/types/descriptorpb"
 	"google.golang.org/protobuf/types/known/durationpb"
 	"google.golang.org/protobuf/types/known/timestamppb"
@@ -188,6 +189,10 @@ func main() {
 				deps = wktFiles()
 			}
 			deps = append(deps, spec.FD)
+			if err := validateFile(spec.FD, deps); err != nil {
+				fmt.Fprintf(os.Stderr, "vgen: the harness built an invalid descriptor for %s: %v\n", spec.FD.GetName(), err)
+				os.Exit(2)
+			}
 			set.File = append(set.File, spec.FD)
 			jobsList = append(jobsList, &job{v: v, spec: spec, info: info, deps: deps})
 		}
@@ -419,4 +424,23 @@ func must(err error) {
 		fmt.Fprintln(os.Stderr, "vgen:", err)
 		os.Exit(2)
 	}
+}
+
+// validateFile makes sure a programmatically built descriptor is one protoc would have produced.
+func validateFile(fd *descriptorpb.FileDescriptorProto, deps []*descriptorpb.FileDescriptorProto) error {
+	files := new(protoregistry.Files)
+	for _, d := range deps {
+		if d == fd {
+			continue
+		}
+		f, err := protodesc.NewFile(d, files)
+		if err != nil {
+			return err
+		}
+		if err := files.RegisterFile(f); err != nil {
+			return err
+		}
+	}
+	_, err := protodesc.NewFile(fd, files)
+	return err
 }
